@@ -508,3 +508,28 @@ macro_rules! h_obs_tovec {
 h_obs_tovec!(c03_q_obs_tovec_l9, 4, 9);
 h_obs_tovec!(c03_q_obs_tovec_l64, 10, 64);
 h_obs_tovec!(c03_q_obs_tovec_l100, 15, 100);
+
+// ---- multiplication on the heap implementation leaves Inv intact ------------------------------------
+// (operands with few structurally symbolic bits: a full-width symbolic 64x64 product is out of
+// reach; the byte just below `len` makes the product wrap into the masked top word)
+macro_rules! h_step_heap_mul {
+    ($name:ident, $unw:literal, $len:literal, $mk:expr, |$a:ident, $b:ident| $body:block) => {
+        harness!($name, $unw, {
+            let n: usize = $len;
+            let top = (nd::u8() as u128) << (n - 8);
+            let w0 = ((nd::u8() as u64) | (nd::u8() as u64) << 56 | top as u64) & m64(n);
+            let w1 = ((nd::u8() as u64) | (top >> 64) as u64) & m64(n - 64);
+            let mut $a = Bvd::new(Box::new([w0, w1]) as Box<[u64]>, n);
+            let $b = $mk;
+            w!(w1 != 0 && w0 != 0, "both words of the subject in use");
+            $body;
+            let r = $a.into_raw();
+            assert!(r.len == n, "C03: length changed by a multiplication");
+            assert!(r.v.fits(r.len), "C03: storage bits at index >= len after a multiplication");
+        });
+    };
+}
+h_step_heap_mul!(c03_q_heap_mul_bvd2_l100_f64x2, 4, 100, Bvf::<u64, 2>::new([nd::u8() as u64, 0], 70), |a, b| { a *= &b; });
+h_step_heap_mul!(c03_q_heap_mul_bvd2_l100_bvd1, 4, 100, Bvd::new(Box::new([nd::u8() as u64]) as Box<[u64]>, 20), |a, b| { a *= &b; });
+h_step_heap_mul!(c03_q_heap_mul_bvd2_l127_bvfix, 4, 127, Bv::Fixed(Bvf::new([nd::u8() as u64, 0], 9)), |a, b| { a *= &b; });
+h_step_heap_mul!(c03_t_heap_mul_bvd2_l100_u16, 5, 100, nd::u8() as u16, |a, b| { a *= b; });
